@@ -11,6 +11,7 @@ def run(ctx):
     gb.run_basic(ctx, "C18")
     gb.run_groupby(ctx, "C18")
     gb.run_ext(ctx, "C18")
+    gb.run_pipes(ctx, "C18")
     try:
         import props.joins as joins
         joins.run_joins(ctx, "C18")
